@@ -42,6 +42,11 @@ tolerance of the case.
                     exactly where it is inside the polygon (ref.draw.cone_membership;
                     vertices up to 50 view diameters away).
   wrong-dimension   objects of dimension != 2 raise GeometryError, add nothing.
+
+The radius threshold is always the one in force for the call (draw_geodesic's /
+get_polygon_arcpath's argument, else the module constant).  Artists are judged
+against the object's proj_data at the time of the call; the edges handed out by
+polygon.get_edges() against the polygon's current vertices (DECLARED).
 """
 import math
 import traceback
@@ -66,7 +71,13 @@ RULE = ("cases = (draw method, model / chart, object class, composite shape, "
         "same or on opposite sides; exact special positions (endpoint exactly at the "
         "origin, foot of the perpendicular from the origin, axis-parallel edges ending "
         "on an axis, antipodal, pre-image of the origin under an exact dyadic boost) "
-        "for segments and polygon edges; sign classes of the homogeneous "
+        "for segments and polygon edges; radius thresholds of the caller's own "
+        "(12..5000, int / float, keyword / positional) with radii between the default "
+        "and the passed threshold, above both, below both, for draw_geodesic and "
+        "get_polygon_arcpath; histories draw -> public setter (set_endpoints, "
+        "set_center_ref, coords(model, data), item assignment, set) -> draw again for "
+        "segments, geodesics, polygons (and their get_edges()), points, horospheres; "
+        "sign classes of the homogeneous "
         "representatives (positive / negative "
         "/ alternating per unit or per vertex) and the drawing transform written as "
         "-A for every object kind; objects of dimension "
@@ -124,6 +135,13 @@ REQUIRED = [
 MIN_SEP = 2e-3
 INF_MARGIN = 0.02
 THRESH_BAND = 1e-3
+
+# id(object about to be drawn) -> homogeneous data it has to be judged against,
+# when that is not the object's own proj_data: the edges handed out by
+# polygon.get_edges() are derived (auxiliary) data of the polygon, and must be the
+# edges of the polygon's *current* vertices (workload edit-redraw; seeded change
+# C19-r6-3: auxiliary data left stale by a public setter).  One-shot.
+DECLARED = {}
 
 
 def model_name(model):
@@ -243,6 +261,9 @@ def setup(run):
         names = list(b)
         obj = b.get(names[1]) if len(names) > 1 else None
         data = as_float(getattr(obj, "proj_data", None))
+        declared = DECLARED.pop(id(obj), None)
+        if declared is not None:
+            data = as_float(declared)
         if data is None:
             return None
         new = new_artists(state)
@@ -252,7 +273,8 @@ def setup(run):
         case = {"method": method, "drawing": type(drawing).__name__,
                 "model": model_name(getattr(drawing, "model", None)),
                 "object": type(obj).__name__, "proj_data": data,
-                "current_case": run.current_case}
+                "judged_against": "declared primary data of the owner" if declared is not None
+                else "the object's own proj_data", "current_case": run.current_case}
         dim = data.shape[-1] - 1
         if dim != 2:
             ok = isinstance(call.exc, (GeometryError, D.DrawingError)) and n_own + n_other == 0
@@ -322,50 +344,77 @@ def setup(run):
         if len(patches) != len(K) or not all(isinstance(p, PathPatch) for p in patches):
             return m_poly.fail("polygon-path/wrong-number-of-patches/%s" % model,
                                "%d PathPatch(es) for %d polygons" % (len(patches), len(K)), case)
-        thr = float(D.RADIUS_THRESHOLD)
+        thr = float(D.RADIUS_THRESHOLD)      # draw_polygon has no threshold option
         view = (float(drawing.left_infinity), float(drawing.right_infinity))
         for patch, k, knd in zip(patches, K, kinds):
-            pcase = dict(case, klein_vertices=k, path_vertices=np.asarray(patch.get_path().vertices),
-                         path_codes=None if patch.get_path().codes is None else
-                         np.asarray(patch.get_path().codes))
-            if not np.all(knd == "interior") or not np.all(np.isfinite(k)):
-                m_poly.skip("vertices not interior")
-                continue
-            sep = np.linalg.norm(np.roll(k, -1, axis=0) - k, axis=-1)
-            if np.min(sep) < MIN_SEP:
-                m_poly.skip("consecutive vertices closer than 2e-3 (Klein)")
-                continue
-            if model == "halfspace":
-                if np.min(rc.inf_distance(k)) < INF_MARGIN:
-                    m_poly.skip("vertex near the half-plane's point at infinity")
-                    continue
-                r_edges = rd.edge_radii(k, model)
-                Wv = rc.model_of_klein(k, model)
-                big = ~np.isfinite(r_edges) | (r_edges >= thr * (1 - THRESH_BAND))
-                if np.any(big & ((Wv[:, 0] < view[0] + 1e-6) | (Wv[:, 0] > view[1] - 1e-6) |
-                                 (np.roll(Wv[:, 0], -1) < view[0] + 1e-6) |
-                                 (np.roll(Wv[:, 0], -1) > view[1] - 1e-6))):
-                    m_poly.skip("vertical substitute with an endpoint outside the view")
-                    continue
-            rep = rd.check_polygon_path(patch.get_path(), k, model, thr * (1 - THRESH_BAND) / (1 - 1e-6),
-                                        view if model == "halfspace" else None)
-            if rep.ill_conditioned:
-                m_poly.skip("node tolerance comparable to an edge's length (short edge of large radius)")
-                continue
-            for name, cnt in rep.branches.items():
-                arm(run, "edge/" + ("straight" if name.startswith("straight") else name), cnt)
-                run.note_class("polygon-edge", model, name)
-            if rep.problems:
-                key, text = rep.problems[0]
-                m_poly.fail("polygon-path/%s/%s" % (key, model),
-                            "draw_polygon(%s), %d-gon: %s" % (model, nv, text), pcase)
-            else:
-                ratio_note(run, "polygon-path/betweenness/" + model, rep.max_between)
-                ratio_note(run, "polygon-path/node/" + model, rep.max_node)
-                m_poly.judge(max(rep.max_between, rep.max_node), 1.0,
-                             "polygon-path/tolerance/%s" % model, "tolerance", pcase, suspicious=0.3)
-            run.note_class("draw_polygon", model, nv)
+            judge_path(patch.get_path(), k, knd, model, thr, view, case, nv)
+
+    def judge_path(path, k, knd, model, thr, view, case, nv, tag=""):
+        """one drawn polygon path against the Klein vertices k, with the radius
+        threshold `thr` that is in force for this call."""
+        pcase = dict(case, klein_vertices=k, path_vertices=np.asarray(path.vertices),
+                     path_codes=None if path.codes is None else np.asarray(path.codes),
+                     radius_threshold=thr)
+        if not np.all(knd == "interior") or not np.all(np.isfinite(k)):
+            return m_poly.skip("vertices not interior")
+        sep = np.linalg.norm(np.roll(k, -1, axis=0) - k, axis=-1)
+        if np.min(sep) < MIN_SEP:
+            return m_poly.skip("consecutive vertices closer than 2e-3 (Klein)")
+        if model == "halfspace":
+            if np.min(rc.inf_distance(k)) < INF_MARGIN:
+                return m_poly.skip("vertex near the half-plane's point at infinity")
+            r_edges = rd.edge_radii(k, model)
+            Wv = rc.model_of_klein(k, model)
+            big = ~np.isfinite(r_edges) | (r_edges >= thr * (1 - THRESH_BAND))
+            if np.any(big & ((Wv[:, 0] < view[0] + 1e-6) | (Wv[:, 0] > view[1] - 1e-6) |
+                             (np.roll(Wv[:, 0], -1) < view[0] + 1e-6) |
+                             (np.roll(Wv[:, 0], -1) > view[1] - 1e-6))):
+                return m_poly.skip("vertical substitute with an endpoint outside the view")
+        rep = rd.check_polygon_path(path, k, model, thr * (1 - THRESH_BAND) / (1 - 1e-6),
+                                    view if model == "halfspace" else None)
+        if rep.ill_conditioned:
+            return m_poly.skip("node tolerance comparable to an edge's length (short edge of large radius)")
+        for name, cnt in rep.branches.items():
+            arm(run, "edge/" + ("straight" if name.startswith("straight") else name), cnt)
+            run.note_class("polygon-edge", model, name)
+        if rep.problems:
+            key, text = rep.problems[0]
+            m_poly.fail("polygon-path/%s/%s%s" % (key, model, tag),
+                        "draw_polygon(%s), %d-gon, radius threshold %g: %s" % (model, nv, thr, text), pcase)
+        else:
+            ratio_note(run, "polygon-path/betweenness/" + model, rep.max_between)
+            ratio_note(run, "polygon-path/node/" + model, rep.max_node)
+            m_poly.judge(max(rep.max_between, rep.max_node), 1.0,
+                         "polygon-path/tolerance/%s" % model, "tolerance", pcase, suspicious=0.3)
+        run.note_class("draw_polygon", model, nv)
     attach.wrap_attr(run, D.HyperbolicDrawing, "draw_polygon", h_polygon, pre=snapshot)
+
+    def h_arcpath(call):
+        """get_polygon_arcpath called with a radius threshold of its own (the
+        calls draw_polygon makes use the default and are judged there): the path
+        may be straight only above the threshold actually passed.  The polygon is
+        taken as given (no drawing transform: the caller pre-processes)."""
+        if call.exc is not None:
+            return
+        b = call.bound()
+        drawing, poly = call.args[0], b.get("polygon")
+        thr = as_float(b.get("radius_threshold"))
+        if thr is None or thr.ndim != 0 or float(thr) == float(D.RADIUS_THRESHOLD) \
+                or not hasattr(call.result, "vertices"):
+            return
+        data = as_float(getattr(poly, "proj_data", None))
+        model = model_name(drawing.model)
+        if data is None or data.ndim != 2 or data.shape[-1] != 3 or model not in ("poincare", "halfspace"):
+            return
+        knd = rh.kind(data, 1e-9)
+        k = rc.klein_of_proj(data)
+        view = (float(drawing.left_infinity), float(drawing.right_infinity))
+        case = {"method": "HyperbolicDrawing.get_polygon_arcpath", "model": model, "proj_data": data,
+                "current_case": run.current_case}
+        judge_path(call.result, k, knd, model, float(thr), view, case, data.shape[0],
+                   tag="/explicit-threshold")
+        run.note_class("get_polygon_arcpath", model, float(thr))
+    attach.wrap_attr(run, D.HyperbolicDrawing, "get_polygon_arcpath", h_arcpath)
 
     # ---- geodesics ---------------------------------------------------------------------------
     def h_geodesic(call, state):
@@ -413,6 +462,24 @@ def setup(run):
                 E = rc.ideal_endpoints(k[0], k[1])
                 dinf = float(min(np.min(rc.inf_distance(k)), np.min(rc.inf_distance(E))))
                 if dinf < INF_MARGIN:
+                    # the circle's ideal endpoints (not the segment's own endpoints) come
+                    # close to the point at infinity: a nearly vertical arc of large
+                    # radius.  Numbers are not judged there, but the *kind* of artist is:
+                    # a straight substitute although the reference radius is below the
+                    # threshold in force by more than the library's own conditioning
+                    # (20 x the square-root-rule tolerance) -- seeded change C19-r6-2.
+                    kd = float(np.min(rc.inf_distance(k)))
+                    if dinf > 1e-12 and kd >= INF_MARGIN and np.all(knd == "interior") \
+                            and isinstance(patch, PathPatch):
+                        with np.errstate(all="ignore"):
+                            _, r0 = rc.geodesic_circle(k[0], k[1], model)
+                        t0 = float(t_on_of(model, sep, dinf))
+                        if np.isfinite(r0) and r0 * (1 + 20 * t0) < thr:
+                            m_geo.fail("geodesic-artist/straight-below-threshold/%s" % model,
+                                       "a straight path is drawn although the reference radius %.5g is "
+                                       "below the threshold %g" % (r0, thr),
+                                       dict(ucase, reference_radius=r0, threshold=thr))
+                            continue
                     m_geo.skip("near the half-plane's point at infinity")
                     continue
             with np.errstate(all="ignore"):
